@@ -241,3 +241,34 @@ Proof.
   remember (wmul t0 qInvNeg * q0 + t0) as T eqn:ET. clear ET HC HCu.
   pose proof W_pos. lia.
 Qed.
+
+(* ------------------------------------------------------------------ *)
+(** * All literals of the long routines (indices included), by blocks *)
+
+Definition round0_allL : list Z :=
+  [0; 1; 0; 0; 0; qInvNeg; 2; q0; 0; 1; 0; 1; 1; 2; 0; q1; 2; 0; 1; 0; 2; 1;
+   2; 1; q2; 2; 0; 1; 0; 3; 1; 3; 2; q3; 0; 2; 1].
+Definition roundN_allL (i : Z) : list Z :=
+  [i; 1; 0; 0; 0; 0; qInvNeg; 2; q0; 0; 1; 0; 1; 1; 1; 2; 0; q1; 2; 0;
+   1; 0; 2; 1; 2; 2; 1; q2; 2; 0; 1; 0; 3; 1; 3; 3; 2; q3; 0; 2; 1].
+Definition fm_block_allL : list Z :=
+  [0; qInvNeg; q0; 0; 0; q1; 1; 1; q2; 2; 2; q3; 3; 3].
+Definition sub4_allL : list Z := [0; 0; 0; 0; 1; 1; 1; 2; 2; 2; 3; 3; 3].
+Definition inner_loop_allL : list Z :=
+  [0; 1; 0] ++ shr1_allL ++ [0; 1; 1] ++ addq_allL ++ shr1_allL.
+Definition inv_branch_allL : list Z := sub4_allL ++ sub4_allL ++ [1] ++ addq_allL.
+
+Lemma lits_ok_long :
+  FfConsts.lits_mulGeneric =
+    [4; 3] ++ round0_allL ++ roundN_allL 1 ++ roundN_allL 2 ++ roundN_allL 3 ++ condsub_allL
+  /\ FfConsts.lits_fromMontGeneric =
+    fm_block_allL ++ fm_block_allL ++ fm_block_allL ++ fm_block_allL ++ condsub_allL
+  /\ FfConsts.lits_Element_SetOne =
+    (let '(a, b, c, d) := one in [0; a; 1; b; 2; c; 3; d])
+  /\ FfConsts.lits_Element_Inverse =
+    qL ++ (let '(a, b, c, d) := rSquare_el in [a; b; c; d])
+       ++ inner_loop_allL ++ inner_loop_allL
+       ++ [3; 3; 3; 3; 2; 2; 2; 2; 1; 1; 1; 1; 0; 0]
+       ++ inv_branch_allL ++ inv_branch_allL
+       ++ [0; 1; 3; 2; 1; 0] ++ [0; 1; 3; 2; 1; 0].
+Proof. vm_compute. repeat split. Qed.
